@@ -27,26 +27,38 @@ def shard(cases, n):
 
 
 def run_lines(cmd, cases, env=None, nshards=None, timeout=1800):
-    """Returns list of output lines aligned with cases (None where the process died before answering)."""
+    """Returns list of output lines aligned with cases.  A process that dies before answering a case gets
+    "signal <n>" for that case and the rest of its shard is re-run in a fresh process."""
     nshards = nshards or lib.NCPU
-    parts = shard(cases, nshards)
+    k = max(1, min(nshards, (len(cases) + 49) // 50))
+    idx = [list(range(len(cases)))[i::k] for i in range(k)]
     outs = [None] * len(cases)
-    idx = [list(range(len(cases)))[i::len(parts)] for i in range(len(parts))]
 
     def work(j):
-        rc, out, err = _run(cmd, "\n".join(parts[j]) + "\n", env=env, timeout=timeout)
-        lines = out.split("\n")
-        if lines and lines[-1] == "":
-            lines.pop()
-        return j, rc, lines, err
+        todo = list(idx[j])
+        res = {}
+        restarts = 0
+        while todo and restarts < 5000:
+            rc, out, err = _run(cmd, "\n".join(cases[c] for c in todo) + "\n", env=env, timeout=timeout)
+            lines = out.split("\n")
+            if lines and lines[-1] == "":
+                lines.pop()
+            n = min(len(lines), len(todo))
+            for t in range(n):
+                res[todo[t]] = lines[t]
+            if n == len(todo):
+                break
+            res[todo[n]] = "signal %d%s" % (-rc if rc < 0 else rc, " timeout" if rc == 124 else "")
+            todo = todo[n + 1:]
+            restarts += 1
+        for c in todo:
+            res.setdefault(c, "unrun")
+        return res
 
-    with ThreadPoolExecutor(max_workers=len(parts)) as ex:
-        for j, rc, lines, err in ex.map(work, range(len(parts))):
-            for k, ci in enumerate(idx[j]):
-                if k < len(lines):
-                    outs[ci] = lines[k]
-                else:
-                    outs[ci] = None if rc == 0 else "signal %d" % (-rc if rc < 0 else rc) if k == len(lines) else None
+    with ThreadPoolExecutor(max_workers=k) as ex:
+        for res in ex.map(work, range(k)):
+            for ci, ln in res.items():
+                outs[ci] = ln
     return outs
 
 
